@@ -35,14 +35,25 @@ type Publisher struct {
 // destination. Which may be a file system, or somewhere else of your choosing.
 // If you only wish to generate files you should use a DirectoryFileWriter.
 func NewPublisher(doc *gedcom.Document, options *PublishShowOptions) *Publisher {
-	return &Publisher{
+	publisher := &Publisher{
 		doc:          doc,
 		options:      options,
 		indexLetters: GetIndexLetters(doc, options.LivingVisibility),
-
-		// placesMap can be nil because we handle found the places yet.
-		individuals: GetIndividuals(doc, nil),
 	}
+
+	// The places have to be known before any page is created. Every page is
+	// given the places when it is created, and the name of the page of an
+	// individual depends on them (see getUniqueKey). If they were only
+	// collected when the place pages are sent, the pages created before that
+	// would use other names for the same individuals than the pages created
+	// after it.
+	if options.ShowPlaces {
+		publisher.Places()
+	}
+
+	publisher.individuals = GetIndividuals(doc, publisher.placesMap)
+
+	return publisher
 }
 
 func (publisher *Publisher) Publish(fileWriter core.FileWriter, parallel int) (err error) {
@@ -205,7 +216,23 @@ func (publisher *Publisher) Places() map[string]*place {
 		publisher.placesMap = map[string]*place{}
 
 		// Get all of the unique place names.
-		for placeTag, node := range publisher.doc.Places() {
+		// The places must always be visited in the same order, otherwise two
+		// places with the same key ("St. Ives" and "St Ives") would be shown
+		// with the name of whichever happens to come first.
+		documentPlaces := publisher.doc.Places()
+		placeTags := []*gedcom.PlaceNode{}
+
+		for placeTag := range documentPlaces {
+			placeTags = append(placeTags, placeTag)
+		}
+
+		sort.SliceStable(placeTags, func(i, j int) bool {
+			return placeTags[i].Value() < placeTags[j].Value()
+		})
+
+		for _, placeTag := range placeTags {
+			node := documentPlaces[placeTag]
+
 			// When living individuals are hidden the places they have been
 			// must be as well, otherwise there is a page (and a name in the
 			// list of places) for each place only they have been to.
